@@ -64,7 +64,8 @@ type hentry struct {
 
 type hmap struct {
 	entries []hentry
-	index   map[interface{}]int
+	index   map[interface{}]int // concrete keys only
+	nsym    int                 // entries whose key is a symbolic string (found by comparison, see Interp.mapFind)
 	kt      types.Type
 }
 
@@ -133,10 +134,20 @@ func (m *hmap) remove(k value) {
 	if !ok {
 		return
 	}
+	m.removeAt(i)
+}
+
+func (m *hmap) removeAt(i int) {
+	if _, sym := m.entries[i].k.(*symStr); sym {
+		m.nsym--
+	} else {
+		delete(m.index, hkey(m.entries[i].k))
+	}
 	m.entries = append(m.entries[:i:i], m.entries[i+1:]...)
-	delete(m.index, hk)
 	for j := i; j < len(m.entries); j++ {
-		m.index[hkey(m.entries[j].k)] = j
+		if _, sym := m.entries[j].k.(*symStr); !sym {
+			m.index[hkey(m.entries[j].k)] = j
+		}
 	}
 }
 
